@@ -50,14 +50,33 @@ func runC13(c *Ctx) {
 			}
 			if len(free) > 0 {
 				l := free[rng.Intn(len(free))]
-				if rng.Intn(2) == 0 && l <= 3 {
+				// a compressed header can only name local types 0..3: if one of them is free while a
+				// local type with the same two low bits is defined, send a record that would fit that one
+				written := false
+				for _, lc := range free {
+					if lc > 3 || written {
+						continue
+					}
+					for _, alias := range []int{lc + 4, lc + 8, lc + 12} {
+						if !written && s.defs[alias] != nil && rng.Intn(2) == 0 {
+							s.Compressed(lc, rng.Intn(32), g.payloadFor(s.defs[alias]))
+							written = true
+						}
+					}
+				}
+				if written {
+					l = -1
+				}
+				if l < 0 {
+					// written above
+				} else if rng.Intn(2) == 0 && l <= 3 {
 					s.Compressed(l, rng.Intn(32), []byte{1, 2})
 				} else {
 					s.Data(l, []byte{1, 2, 3})
 				}
 				id++
 				u := p.runCall(id, "decode", s.Bytes(), plain, CallOpts{}, true)
-				u.Note = fmt.Sprintf("undefined local type %d", l)
+				u.Note = "undefined local type"
 				calls = append(calls, u)
 				undefined++
 			}
@@ -140,10 +159,38 @@ func runC13(c *Ctx) {
 			s.Def(la, byte(rng.Intn(2)), uint16(0xFF00+rng.Intn(16)), fs, dv)
 		}
 		defineA()
+		// a third local type that carries the same message without profile as A, in another size
+		lc := 1 + (lb+rng.Intn(13))%15
+		for lc == la || lc == lb {
+			lc = 1 + lc%15
+		}
+		twin := func() {
+			if d := s.defs[la]; d != nil {
+				s.Def(lc, byte(rng.Intn(2)), d.global, []FieldDef{{0, byte(1 + rng.Intn(9)), 0x0D}, {7, byte(1 + rng.Intn(4)), 0x0D}}, nil)
+			}
+		}
+		if k%2 == 1 {
+			twin()
+		}
 		for r := 0; r < 12+rng.Intn(12); r++ {
+			if k%2 == 1 && rng.Intn(4) == 0 && s.defs[lc] != nil {
+				n := 0
+				for _, f := range s.defs[lc].fields {
+					n += int(f.Size)
+				}
+				pl := make([]byte, n)
+				for i := range pl {
+					pl[i] = []byte{byte(lb), byte(0x40 | lb), byte(rng.Intn(256)), 0}[rng.Intn(4)]
+				}
+				s.Data(lc, pl)
+				continue
+			}
 			switch rng.Intn(5) {
 			case 0:
 				defineA()
+				if k%2 == 1 && rng.Intn(2) == 0 {
+					twin()
+				}
 			case 1, 2:
 				d := s.defs[la]
 				n := 0
